@@ -1,5 +1,6 @@
 import binascii
 import logging
+import struct
 import time
 
 from .cid import UbxCID
@@ -349,6 +350,9 @@ class UbxServerBase_(object):
                     except KeyError:
                         # We can't parse the frame, is it registered()
                         logger.warning(f'frame not registered, cannot decode: {binascii.hexlify(data)}')
+                    except (ValueError, struct.error, AssertionError):
+                        # Frame has valid checksum but payload does not fit the frame type
+                        logger.warning(f'cannot decode frame {cid}: {binascii.hexlify(data)}')
                 else:
                     logger.warning("checksum error in frame, discarding")
 
